@@ -110,6 +110,12 @@ func (c *Conn) write(ctx context.Context, typ MessageType, p []byte) (int, error
 
 	if !c.flate() {
 		defer c.msgWriter.mu.unlock()
+		// The message is complete with this one frame. Mark the writer closed like
+		// msgWriter.Close does: the writer is shared by all messages of the connection,
+		// and a Close on a handle from an earlier message (a deferred second Close, say)
+		// would otherwise pass for the end of this one and put an empty message on
+		// the wire.
+		atomic.StoreInt32(&c.msgWriter.closed, 1)
 		return c.writeFrame(ctx, true, false, c.msgWriter.opcode, p)
 	}
 
